@@ -17,7 +17,8 @@ RULE = ('One wallet per history on network bitcoinlib_test (offline provider: tw
         'step: I1 balance = sum(utxos); I2 = sum of per-key balances via keys() and via key(id).balance(); I3 no '
         'outpoint consumed by a stored broadcast transaction is listed or selected again; I4 stored transactions '
         'reload identically; I5 reopened / second Wallet object agree. [plus delete_funding: the record that funded a consumed outpoint is deleted and the outpoint reported again] Non-trivial = history with a broadcast send '
-        'followed by reopen, utxos_update or delete; distinct by history. [plus delete_received (one / all records that only paid the wallet) and remove_unconfirmed; with several accounts: balance(account) = sum of the balances of that account\'s keys, utxo_add may name keys of the other accounts] [plus store_draft (unsent payment stored), restore (reloaded transaction stored / sent again), imported transactions with other sequence numbers]')
+        'followed by reopen, utxos_update or delete; distinct by history. [plus delete_received (one / all records that only paid the wallet) and remove_unconfirmed; with several accounts: balance(account) = sum of the balances of that account\'s keys, utxo_add may name keys of the other accounts] [plus store_draft (unsent payment stored), restore (reloaded transaction stored / sent again), imported transactions with other sequence numbers]'
+        ' [plus pay_other_account (key records keep their account: I6), resend_object (the sent object sent / stored again), drafts saved unsigned, signed, saved again]')
 ASSUMPTIONS = ['SQLite only', 'offline provider semantics of bitcoinlib_test (utxos_update legitimately replaces the '
                'unspent set by what the provider reports)']
 SHARDS = {'quick': 16, 'thorough': 16}
